@@ -1,12 +1,34 @@
 //! C20: any stack of the thirteen layers over a contract-checking inner service, with a `Tap` at
 //! every service boundary that logs the Tower-contract events (`clone`, `poll_ready`, `call`).
 //!
-//! header: `stack layers=<outermost,…,innermost> inner=strict|climit|buffer [ready=<script>] [lp=<mask>]`
+//! header: `stack layers=<outermost,…,innermost> inner=strict|climit|buffer [ready=<script>] [cl=<n>] [lp=<mask>]`
 //! boundary `b0` is the one the harness drives, `b<n>` the one of the inner service.
 //! log:  `b<j> clone <src> <new>` · `b<j> poll <i> ready|pending|err` · `b<j> call <i> <tag>`
 //! Every boundary event is also recorded with `world::obs("ev", …)` so the model driver replays it.
+//!
+//! layer names (non-triggering configurations unless the name says otherwise):
+//!   bulkhead ratelimiter circuit timelimiter timelimiter_nocancel retry cache fallback hedge hedge1
+//!   hedge_fire hedge_parallel reconnect adaptive coalesce executor chaos
+//! `retry` / `reconnect` re-issue the request on errors whose text contains `ierr1`; `hedge_fire`
+//! starts a second attempt 5 ms after the first, `hedge_parallel` starts three attempts at once;
+//! `hedge` (2 attempts, 1 h delay) waits for its hedge when the primary fails, `hedge1` has one attempt.
+//!
+//! The inner service is always the strict scripted service (`inner_call c k tag=… ready=0|1`), either
+//! bare (`inner=strict`, with the readiness script `ready=`) or behind tower's `ConcurrencyLimit`
+//! (`inner=climit cl=<n>`) or `Buffer` (`inner=buffer`), which reserve capacity in `poll_ready` and
+//! panic in `call` when it was not reserved.
+//!
+//! Twin ("listeners only observe"): with `lp=<mask>` ≠ 0 a second, identical stack with `lp=0` is built
+//! (quiet: no log, no obs, its own inner service and serial counter) and driven in lock-step: the same
+//! readiness polls and the call in the same `arrive`, the two call futures polled one after the other in
+//! every poll of the caller. `twin-mismatch c <a> <b>` is logged when the two answers differ (an answer
+//! that is not there in the same step counts as `pending`); `probe listeners` prints both count vectors.
 use crate::world::*;
 use futures::future::BoxFuture;
+use std::collections::VecDeque;
+use std::future::Future;
+use std::panic::{catch_unwind, AssertUnwindSafe};
+use std::pin::Pin;
 use std::sync::atomic::{AtomicU64, Ordering};
 use std::sync::{Arc, Mutex};
 use std::task::{Context, Poll};
@@ -29,6 +51,8 @@ pub type BoxSvc = BoxCloneService<Req, Resp, SErr>;
 
 struct TapShared {
     next: Mutex<Vec<u64>>,
+    /// the twin's taps neither log nor record observations
+    quiet: bool,
 }
 pub struct Tap<S> {
     inner: S,
@@ -36,20 +60,23 @@ pub struct Tap<S> {
     id: u64,
     sh: Arc<TapShared>,
 }
-fn ev(b: usize, what: String) {
+fn ev(sh: &TapShared, b: usize, what: String) {
+    if sh.quiet {
+        return;
+    }
     log(format!("b{} {}", b, what));
     obs("ev", format!("b{}:{}", b, what.replace(' ', ":")));
 }
 impl<S: Clone> Clone for Tap<S> {
     fn clone(&self) -> Self {
         let new = {
-            let mut n = self.sh.next.lock().unwrap();
+            let mut n = self.sh.next.lock().unwrap_or_else(|e| e.into_inner());
             let v = n[self.b];
             n[self.b] += 1;
             v
         };
-        // the inner clone comes first: the events a clone causes below appear in call order
-        ev(self.b, format!("clone {} {}", self.id, new));
+        // the event comes first: the events a clone causes below appear in call order
+        ev(&self.sh, self.b, format!("clone {} {}", self.id, new));
         let inner = self.inner.clone();
         Tap { inner, b: self.b, id: new, sh: self.sh.clone() }
     }
@@ -68,11 +95,11 @@ where
             Poll::Ready(Err(_)) => "err",
             Poll::Pending => "pending",
         };
-        ev(self.b, format!("poll {} {}", self.id, s));
+        ev(&self.sh, self.b, format!("poll {} {}", self.id, s));
         r
     }
     fn call(&mut self, req: Req) -> S::Future {
-        ev(self.b, format!("call {} {}", self.id, req.tag));
+        ev(&self.sh, self.b, format!("call {} {}", self.id, req.tag));
         self.inner.call(req)
     }
 }
@@ -83,6 +110,94 @@ where
     S::Future: Send + 'static,
 {
     BoxCloneService::new(Tap { inner: svc, b, id: 0, sh: sh.clone() })
+}
+
+// ------------------------------------------------------------------ the twin's inner service
+
+/// `world::Inner` (strict), transcribed without any logging and with a serial counter of its own, so
+/// that the twin stack leaves no trace in the event log and does not disturb the serial numbers.
+struct QShared {
+    next_instance: u64,
+    ready_script: VecDeque<char>,
+    serial: u64,
+}
+pub struct QInner {
+    shared: Arc<Mutex<QShared>>,
+    ready: bool,
+}
+impl QInner {
+    fn strict(script: &str) -> QInner {
+        let sh = QShared { next_instance: 1, ready_script: script.chars().collect(), serial: 0 };
+        QInner { shared: Arc::new(Mutex::new(sh)), ready: false }
+    }
+}
+impl Clone for QInner {
+    fn clone(&self) -> QInner {
+        self.shared.lock().unwrap().next_instance += 1;
+        QInner { shared: self.shared.clone(), ready: false }
+    }
+}
+pub struct QFut {
+    sleep: Option<Pin<Box<tokio::time::Sleep>>>,
+    c: usize,
+    k: u64,
+    tag: u64,
+    out: Out,
+    done: bool,
+}
+impl Future for QFut {
+    type Output = Result<Resp, IErr>;
+    fn poll(mut self: Pin<&mut Self>, cx: &mut Context<'_>) -> Poll<Self::Output> {
+        if self.done {
+            panic!("inner future polled after completion");
+        }
+        if self.out == Out::Never {
+            return Poll::Pending;
+        }
+        if let Some(s) = self.sleep.as_mut() {
+            if s.as_mut().poll(cx).is_pending() {
+                return Poll::Pending;
+            }
+        }
+        self.done = true;
+        match self.out {
+            Out::Ok => Poll::Ready(Ok(Resp { v: self.k, c: self.c, tag: self.tag })),
+            Out::Err(kind) => Poll::Ready(Err(IErr { kind, v: self.k })),
+            Out::Panic => panic!("scripted inner panic"),
+            Out::Never => unreachable!(),
+        }
+    }
+}
+impl Service<Req> for QInner {
+    type Response = Resp;
+    type Error = IErr;
+    type Future = QFut;
+    fn poll_ready(&mut self, cx: &mut Context<'_>) -> Poll<Result<(), IErr>> {
+        let mut sh = self.shared.lock().unwrap();
+        match sh.ready_script.pop_front() {
+            Some('p') => {
+                cx.waker().wake_by_ref();
+                return Poll::Pending;
+            }
+            Some('e') => return Poll::Ready(Err(IErr { kind: 9, v: 0 })),
+            _ => {}
+        }
+        drop(sh);
+        self.ready = true;
+        Poll::Ready(Ok(()))
+    }
+    fn call(&mut self, req: Req) -> QFut {
+        let k = {
+            let mut sh = self.shared.lock().unwrap();
+            let k = sh.serial;
+            sh.serial += 1;
+            k
+        };
+        let step = req.plan.lock().unwrap().pop_front().unwrap_or(Step { lat: 0, out: Out::Ok });
+        self.ready = false;
+        let sleep = if step.lat > 0 { Some(Box::pin(tokio::time::sleep(Duration::from_millis(step.lat)))) } else { None };
+        QFut { sleep, c: req.c, k, tag: req.tag, out: step.out, done: false }
+    }
 }
 
 // ------------------------------------------------------------------ listeners (observers only)
@@ -98,6 +213,10 @@ impl ListenerCounts {
             panic!("listener {} panics", i);
         }
     }
+    fn render(&self) -> String {
+        let v: Vec<String> = self.counts.iter().map(|c| c.load(Ordering::SeqCst).to_string()).collect();
+        v.join(",")
+    }
 }
 
 // ------------------------------------------------------------------ layers
@@ -108,6 +227,35 @@ where
     S::Future: Send + 'static,
 {
     BoxCloneService::new(svc)
+}
+
+type KeyFn = fn(&Req) -> u64;
+fn tag_of(r: &Req) -> u64 {
+    r.tag
+}
+fn chaos_inject(_r: &Req) -> SErr {
+    SErr("chaos!injected".into())
+}
+
+/// `ReconnectError` is not exported by the crate: the variant is read off the `Display` text.
+fn reconnect_err(s: String) -> SErr {
+    if let Some(rest) = s.strip_prefix("service error: ") {
+        SErr(format!("reconnect({})", rest))
+    } else if let Some(rest) = s.strip_prefix("max reconnection attempts (") {
+        let (n, tail) = rest.split_once(") exceeded: ").unwrap_or(("?", rest));
+        SErr(format!("reconnect!max_attempts:{}({})", n, tail))
+    } else if let Some(rest) = s.strip_prefix("connection failed (no retry): ") {
+        SErr(format!("reconnect!no_retry({})", rest))
+    } else if let Some(rest) = s.strip_prefix("connection failed: ") {
+        SErr(format!("reconnect!conn_failed({})", rest))
+    } else {
+        SErr(format!("reconnect!unknown({})", s))
+    }
+}
+
+/// Does the layer spawn tasks (so that the harness must let them run after every operation)?
+fn layer_spawns(name: &str) -> bool {
+    matches!(name, "hedge" | "hedge1" | "hedge_fire" | "hedge_parallel" | "executor" | "timelimiter_nocancel")
 }
 
 /// Apply layer `name` (in a non-triggering configuration unless the name says otherwise) to `inner`.
@@ -171,7 +319,7 @@ fn apply(name: &str, inner: BoxSvc, lc: &Arc<ListenerCounts>) -> Option<BoxSvc> 
                 TimeLimiterError::Timeout => SErr("timelimiter!timeout".into()),
             }))
         }
-        // retry: errors whose text contains `inner1` are retried (a triggered configuration when the script
+        // retry: errors whose text contains `ierr1` are retried (a triggered configuration when the script
         // produces them); every other error passes through untouched
         "retry" => {
             use tower_resilience_retry::RetryLayer;
@@ -185,65 +333,178 @@ fn apply(name: &str, inner: BoxSvc, lc: &Arc<ListenerCounts>) -> Option<BoxSvc> 
                 .build();
             boxed(layer.layer(inner))
         }
+        // cache: the key is the request's tag and tags are distinct, so nothing ever hits
+        "cache" => {
+            use tower_resilience_cache::{CacheError, CacheLayer};
+            let layer = CacheLayer::<Req, u64>::builder()
+                .max_size(10_000)
+                .key_extractor(|r: &Req| r.tag)
+                .on_miss(move || l0.hit(0))
+                .on_miss(move || l1.hit(1))
+                .on_miss(move || l2.hit(2))
+                .build();
+            boxed(layer.layer(inner).map_err(|e| match e {
+                CacheError::Inner(e) => SErr(format!("cache({})", e)),
+            }))
+        }
+        // fallback: a value strategy that handles only errors containing "never" (none is generated)
+        "fallback" => {
+            use tower_resilience_fallback::{FallbackError, FallbackLayer};
+            let layer = FallbackLayer::<Req, Resp, SErr>::builder()
+                .value(Resp { v: 999_999, c: 0, tag: 999_999 })
+                .handle(|e: &SErr| e.0.contains("never"))
+                .on_event(move |_| l0.hit(0))
+                .on_event(move |_| l1.hit(1))
+                .on_event(move |_| l2.hit(2))
+                .build();
+            boxed(layer.layer(inner).map_err(|e| match e {
+                FallbackError::Inner(e) => SErr(format!("fallback({})", e)),
+                FallbackError::FallbackFailed(e) => SErr(format!("fallback!failed({})", e)),
+            }))
+        }
+        "hedge" | "hedge1" | "hedge_fire" | "hedge_parallel" => {
+            use tower_resilience_core::FnListener;
+            use tower_resilience_hedge::{HedgeError, HedgeEvent, HedgeLayer};
+            let b = HedgeLayer::builder();
+            let b = match name {
+                "hedge" => b.max_hedged_attempts(2).delay(Duration::from_secs(3600)),
+                "hedge1" => b.max_hedged_attempts(1).delay(Duration::from_secs(3600)),
+                "hedge_fire" => b.max_hedged_attempts(2).delay(Duration::from_millis(5)),
+                _ => b.max_hedged_attempts(3).no_delay(),
+            };
+            let layer = b
+                .on_event(FnListener::new(move |_: &HedgeEvent| l0.hit(0)))
+                .on_event(FnListener::new(move |_: &HedgeEvent| l1.hit(1)))
+                .on_event(FnListener::new(move |_: &HedgeEvent| l2.hit(2)))
+                .build();
+            boxed(layer.layer(inner).map_err(|e| match e {
+                HedgeError::Inner(e) => SErr(format!("hedge({})", e)),
+                HedgeError::AllAttemptsFailed(e) => SErr(format!("hedge!all_failed({})", e)),
+            }))
+        }
+        // reconnect: errors whose text contains `ierr1` are connection failures (retried after 5 ms, at
+        // most twice); its callbacks exist only under the crate's `tracing` feature and are single
+        // closures, not `EventListeners`: no listeners here
+        "reconnect" => {
+            use tower_resilience_reconnect::{ReconnectConfig, ReconnectLayer, ReconnectPolicy};
+            let cfg = ReconnectConfig::builder()
+                .policy(ReconnectPolicy::fixed(Duration::from_millis(5)))
+                .max_attempts(2)
+                .retry_on_reconnect(true)
+                .reconnect_predicate(|e| e.to_string().contains("ierr1"))
+                .build();
+            let layer = ReconnectLayer::new(cfg);
+            boxed(layer.layer(inner).map_err(|e| reconnect_err(e.to_string())))
+        }
+        // adaptive: AIMD with limit 1000 (no event listeners in this crate)
+        "adaptive" => {
+            use tower_resilience_adaptive::{AdaptiveError, AdaptiveLimiterLayer, IntoLayer};
+            let layer = AdaptiveLimiterLayer::<tower_resilience_adaptive::Aimd>::builder()
+                .aimd()
+                .initial_limit(1000)
+                .min_limit(500)
+                .max_limit(1000)
+                .latency_threshold(Duration::from_secs(3600))
+                .build()
+                .into_layer();
+            boxed(layer.layer(inner).map_err(|e| match e {
+                AdaptiveError::Service(e) => SErr(format!("adaptive({})", e)),
+                AdaptiveError::LimitReached => SErr("adaptive!limit".into()),
+            }))
+        }
+        // coalesce: key = tag (distinct), so every request leads (no event listeners in this crate)
+        "coalesce" => {
+            use tower_resilience_coalesce::{CoalesceError, CoalesceLayer};
+            let layer: CoalesceLayer<u64, Req, KeyFn> = CoalesceLayer::builder(tag_of as KeyFn).name("verif").build();
+            boxed(layer.layer(inner).map_err(|e| match e {
+                CoalesceError::Service(e) => SErr(format!("coalesce({})", e)),
+                CoalesceError::LeaderCancelled => SErr("coalesce!leader_cancelled".into()),
+                CoalesceError::RecvError => SErr("coalesce!recv".into()),
+            }))
+        }
+        // executor: the current runtime (no event listeners in this crate)
+        "executor" => {
+            use tower_resilience_executor::{ExecutorError, ExecutorLayer};
+            let layer = ExecutorLayer::<tokio::runtime::Handle>::builder().current().build();
+            boxed(layer.layer(inner).map_err(|e| match e {
+                ExecutorError::Service(e) => SErr(format!("executor({})", e)),
+                ExecutorError::TaskCancelled => SErr("executor!cancelled".into()),
+            }))
+        }
+        // chaos: both rates 0, seeded; its error type is the inner one (no wrapper)
+        "chaos" => {
+            use tower_resilience_chaos::ChaosLayer;
+            let f: fn(&Req) -> SErr = chaos_inject;
+            let layer = ChaosLayer::builder()
+                .name("verif")
+                .on_passed_through(move || l0.hit(0))
+                .on_passed_through(move || l1.hit(1))
+                .on_passed_through(move || l2.hit(2))
+                .latency_rate(0.0)
+                .seed(7)
+                .error_rate(0.0)
+                .error_fn(f)
+                .build();
+            boxed(layer.layer(inner))
+        }
         _ => return None,
     })
 }
 
-pub struct Adapter {
+// ------------------------------------------------------------------ one stack
+
+struct Stack {
     svc: BoxSvc,
     held: Option<BoxSvc>,
     lc: Arc<ListenerCounts>,
-    spawns: bool,
 }
 
-impl Adapter {
-    pub fn new(kv: &Kv) -> Adapter {
-        let layers: Vec<String> = kv.str("layers", "").split(',').filter(|s| !s.is_empty()).map(|s| s.to_string()).collect();
+/// what an `arrive` produced on one stack
+enum Started {
+    /// answered before a call future existed (`readyerr:…`, `notready`, `panic`)
+    Done(String),
+    Fut(BoxFuture<'static, String>),
+}
+
+fn bottom<I>(kind: &str, inner: I, cl: usize) -> BoxSvc
+where
+    I: Service<Req, Response = Resp, Error = IErr> + Clone + Send + 'static,
+    I::Future: Send + 'static,
+{
+    match kind {
+        "climit" => boxed(tower::limit::ConcurrencyLimit::new(inner, cl).map_err(|e: IErr| SErr(e.to_string()))),
+        "buffer" => boxed(tower::buffer::Buffer::new(inner, 8).map_err(|e: tower::BoxError| SErr(e.to_string()))),
+        _ => boxed(inner.map_err(|e: IErr| SErr(e.to_string()))),
+    }
+}
+
+impl Stack {
+    fn new(kv: &Kv, layers: &[String], lp: u64, quiet: bool) -> Stack {
         let n = layers.len();
-        let sh = Arc::new(TapShared { next: Mutex::new(vec![1; n + 1]) });
-        let lc = Arc::new(ListenerCounts {
-            counts: (0..3).map(|_| AtomicU64::new(0)).collect(),
-            panic_mask: kv.u64("lp", 0),
-        });
-        let mut spawns = false;
-        let bottom: BoxSvc = match kv.str("inner", "strict").as_str() {
-            "climit" => boxed(
-                tower::limit::ConcurrencyLimit::new(Inner::new(), kv.u64("cl", 2) as usize).map_err(|e: IErr| SErr(e.to_string())),
-            ),
-            "buffer" => {
-                spawns = true;
-                boxed(tower::buffer::Buffer::new(Inner::new(), 8).map_err(|e: tower::BoxError| SErr(e.to_string())))
-            }
-            _ => boxed(Inner::strict(&kv.str("ready", "")).map_err(|e: IErr| SErr(e.to_string()))),
-        };
-        let mut svc = tap(bottom, n, &sh);
+        let sh = Arc::new(TapShared { next: Mutex::new(vec![1; n + 1]), quiet });
+        let lc = Arc::new(ListenerCounts { counts: (0..3).map(|_| AtomicU64::new(0)).collect(), panic_mask: lp });
+        let kind = kv.str("inner", "strict");
+        let script = if kind == "strict" { kv.str("ready", "") } else { String::new() };
+        let cl = kv.u64("cl", 2) as usize;
+        let b = if quiet { bottom(&kind, QInner::strict(&script), cl) } else { bottom(&kind, Inner::strict(&script), cl) };
+        let mut svc = tap(b, n, &sh);
         for (j, name) in layers.iter().enumerate().rev() {
-            if matches!(name.as_str(), "hedge" | "hedge_fire" | "hedge_parallel" | "executor" | "timelimiter_nocancel") {
-                spawns = true;
-            }
             svc = match apply(name, svc, &lc) {
                 Some(s) => tap(s, j, &sh),
                 None => {
-                    log_raw(format!("#unknown-layer {}", name));
+                    if !quiet {
+                        log_raw(format!("#unknown-middleware stack-layer:{}", name));
+                    }
                     tap(boxed(Inner::new().map_err(|e: IErr| SErr(e.to_string()))), j, &sh)
                 }
             };
         }
-        Adapter { svc, held: None, lc, spawns }
+        Stack { svc, held: None, lc }
     }
-}
 
-pub fn render(r: Result<Resp, SErr>) -> String {
-    match r {
-        Ok(x) => format!("ok:{}:tag={}", x.v, x.tag),
-        Err(e) => format!("err:{}", e.0),
-    }
-}
-
-impl Mw for Adapter {
-    /// `arrive c tag=… inner=… [how=clone|held] [polls=<n>]`: drive the outermost service the way a
-    /// contract-respecting caller does: poll_ready (possibly several times) until ready, then call.
-    fn arrive(&mut self, c: usize, kv: &Kv) -> Option<CallFut> {
+    /// Drive the outermost service the way a contract-respecting caller does: poll_ready (possibly several
+    /// times) until ready, then call. A panic out of `poll_ready` / `call` is the caller's answer `panic`.
+    fn start(&mut self, c: usize, kv: &Kv) -> Started {
         let req = Req::new(c, kv);
         let held = kv.str("how", "clone") == "held";
         let mut svc = if held {
@@ -256,44 +517,156 @@ impl Mw for Adapter {
         };
         let want = kv.u64("polls", 1).max(1);
         let (mut got, mut tries) = (0, 0);
+        let mut early: Option<String> = None;
         while got < want && tries < want + 8 {
             tries += 1;
-            match poll_ready_once(&mut svc) {
-                Poll::Ready(Ok(())) => got += 1,
-                Poll::Ready(Err(e)) => {
-                    log(format!("result {} readyerr:{}", c, e.0));
-                    if held {
-                        self.held = Some(svc);
-                    }
-                    return None;
+            match catch_unwind(AssertUnwindSafe(|| poll_ready_once(&mut svc))) {
+                Ok(Poll::Ready(Ok(()))) => got += 1,
+                Ok(Poll::Ready(Err(e))) => {
+                    early = Some(format!("readyerr:{}", e.0));
+                    break;
                 }
-                Poll::Pending => {}
+                Ok(Poll::Pending) => {}
+                Err(_) => {
+                    early = Some("panic".into());
+                    break;
+                }
             }
         }
-        if got < want {
-            log(format!("result {} notready", c));
-            if held {
-                self.held = Some(svc);
-            }
-            return None;
+        if early.is_none() && got < want {
+            early = Some("notready".into());
         }
-        let fut: BoxFuture<'static, Result<Resp, SErr>> = Box::pin(svc.call(req));
+        if let Some(s) = early {
+            // A caller that gives up must drop the instance: one that stays alive after a `Pending` keeps its
+            // place in the queue of a ConcurrencyLimit / Buffer and would be handed capacity nobody uses
+            // (and a failed service is discarded). The next `how=held` request starts from a fresh clone.
+            drop(svc);
+            return Started::Done(s);
+        }
+        let r = catch_unwind(AssertUnwindSafe(|| svc.call(req)));
         if held {
             self.held = Some(svc);
         }
-        Some(Box::pin(async move { render(fut.await) }))
+        match r {
+            Ok(fut) => Started::Fut(Box::pin(async move { render(fut.await) })),
+            Err(_) => Started::Done("panic".into()),
+        }
+    }
+}
+
+pub fn render(r: Result<Resp, SErr>) -> String {
+    match r {
+        Ok(x) => format!("ok:{}:tag={}", x.v, x.tag),
+        Err(e) => format!("err:{}", e.0),
+    }
+}
+
+/// The call futures of the two stacks, polled one after the other in every poll of the caller.
+struct Pair {
+    c: usize,
+    a: Option<BoxFuture<'static, String>>,
+    b: Option<BoxFuture<'static, String>>,
+    rb: Option<String>,
+}
+fn poll_caught(f: &mut BoxFuture<'static, String>, cx: &mut Context<'_>) -> Poll<String> {
+    match catch_unwind(AssertUnwindSafe(|| f.as_mut().poll(cx))) {
+        Ok(p) => p,
+        Err(_) => Poll::Ready("panic".into()),
+    }
+}
+impl Future for Pair {
+    type Output = String;
+    fn poll(mut self: Pin<&mut Self>, cx: &mut Context<'_>) -> Poll<String> {
+        let this = &mut *self;
+        let ra = match this.a.as_mut() {
+            Some(f) => poll_caught(f, cx),
+            None => Poll::Pending,
+        };
+        if let Some(f) = this.b.as_mut() {
+            if let Poll::Ready(s) = poll_caught(f, cx) {
+                this.b = None;
+                if ra.is_pending() {
+                    // the twin answers in a step in which the observed stack does not
+                    log(format!("twin-mismatch {} pending {}", this.c, s));
+                }
+                this.rb = Some(s);
+            }
+        }
+        match ra {
+            Poll::Ready(s) => {
+                // drop both futures before the result is logged (their drop glue belongs to this step)
+                this.a = None;
+                this.b = None;
+                match this.rb.take() {
+                    Some(t) if t == s => {}
+                    Some(t) => log(format!("twin-mismatch {} {} {}", this.c, s, t)),
+                    None => log(format!("twin-mismatch {} {} pending", this.c, s)),
+                }
+                Poll::Ready(s)
+            }
+            Poll::Pending => Poll::Pending,
+        }
+    }
+}
+
+// ------------------------------------------------------------------ adapter
+
+pub struct Adapter {
+    main: Stack,
+    twin: Option<Stack>,
+    yields: usize,
+}
+
+impl Adapter {
+    pub fn new(kv: &Kv) -> Adapter {
+        let layers: Vec<String> = kv.str("layers", "").split(',').filter(|s| !s.is_empty()).map(|s| s.to_string()).collect();
+        let lp = kv.u64("lp", 0);
+        let spawning = layers.iter().filter(|l| layer_spawns(l)).count() + (kv.str("inner", "strict") == "buffer") as usize;
+        let main = Stack::new(kv, &layers, lp, false);
+        let twin = if lp != 0 { Some(Stack::new(kv, &layers, 0, true)) } else { None };
+        Adapter { main, twin, yields: if spawning == 0 { 0 } else { 8 * (spawning + 1) } }
+    }
+}
+
+impl Mw for Adapter {
+    /// `arrive c tag=… inner=… [how=clone|held] [polls=<n>]`
+    fn arrive(&mut self, c: usize, kv: &Kv) -> Option<CallFut> {
+        let a = self.main.start(c, kv);
+        let b = self.twin.as_mut().map(|t| t.start(c, kv));
+        match (a, b) {
+            (Started::Done(s), None) => {
+                log(format!("result {} {}", c, s));
+                None
+            }
+            (Started::Fut(f), None) => Some(f),
+            (Started::Done(s), Some(Started::Done(t))) => {
+                log(format!("result {} {}", c, s));
+                if s != t {
+                    log(format!("twin-mismatch {} {} {}", c, s, t));
+                }
+                None
+            }
+            (Started::Done(s), Some(Started::Fut(_))) => {
+                log(format!("result {} {}", c, s));
+                log(format!("twin-mismatch {} {} pending", c, s));
+                None
+            }
+            (Started::Fut(f), Some(Started::Done(t))) => {
+                log(format!("twin-mismatch {} pending {}", c, t));
+                Some(f)
+            }
+            (Started::Fut(f), Some(Started::Fut(g))) => Some(Box::pin(Pair { c, a: Some(f), b: Some(g), rb: None })),
+        }
     }
     fn probe(&mut self, what: &str, _kv: &Kv) {
         if what == "listeners" {
-            let v: Vec<String> = self.lc.counts.iter().map(|c| c.load(Ordering::SeqCst).to_string()).collect();
-            log(format!("probe listeners {}", v.join(",")));
+            match &self.twin {
+                Some(t) => log(format!("probe listeners {} twin={}", self.main.lc.render(), t.lc.render())),
+                None => log(format!("probe listeners {}", self.main.lc.render())),
+            }
         }
     }
     fn yields(&self) -> usize {
-        if self.spawns {
-            8
-        } else {
-            0
-        }
+        self.yields
     }
 }
